@@ -6,11 +6,12 @@ from . import eqv
 
 class Step(object):
   """One executed bundle."""
-  __slots__ = ('index', 'uas', 'reply', 'before', 'after', 'is_prelude')
+  __slots__ = ('index', 'uas', 'reply', 'before', 'after', 'is_prelude', 'log_pos')
 
-  def __init__(self, index, uas, reply, before, after, is_prelude):
+  def __init__(self, index, uas, reply, before, after, is_prelude, log_pos=None):
     self.index = index; self.uas = uas; self.reply = reply
     self.before = before; self.after = after; self.is_prelude = is_prelude
+    self.log_pos = log_pos     # len(doc.log) before this bundle was applied
 
 
 def kinds_of(uas):
@@ -55,9 +56,10 @@ class HistoryRun(object):
 
   def _exec(self, uas, is_prelude, on_step):
     before = self.steps[-1].after if (self.steps and self.snapshots) else (self.initial if self.snapshots else None)
+    log_pos = len(self.doc.log)
     r = self.doc.apply(uas)
     after = self.doc.snapshot() if self.snapshots else None
-    st = Step(len(self.steps), uas, r, before, after, is_prelude)
+    st = Step(len(self.steps), uas, r, before, after, is_prelude, log_pos)
     self.steps.append(st)
     if r.ok:
       self.n_ok += 1
@@ -145,6 +147,10 @@ def is_cycle_error_pair(va, vb):
   return False
 
 
+def is_keyerror(v):
+  return eqv.is_error_cell(v) and len(v) > 1 and v[1] == 'KeyError'
+
+
 def summary_tables_of(snapshot):
   out = set()
   t = snapshot.get('_grist_Tables')
@@ -217,3 +223,66 @@ def summary_groupby_record_valued(doc, table_id):
         if isinstance(v, list) and v and v[0] in ('R', 'r'):
           return True
   return False
+
+
+def col_kind(snapshot, table_id, col_id):
+  """'formula' | 'data' | 'helper' | 'manualSort' | 'meta' for a column, read from the snapshot's metadata."""
+  if table_id.startswith('_grist_'):
+    return 'meta'
+  if col_id == 'manualSort':
+    return 'manualSort'
+  if col_id.startswith('gristHelper_'):
+    return 'helper'
+  tabs, cols = snapshot.get('_grist_Tables'), snapshot.get('_grist_Tables_column')
+  if not tabs or not cols:
+    return 'unknown'
+  tref = [r for r in tabs['id'] if tabs['tableId'].get(r) == table_id]
+  if not tref:
+    return 'unknown'
+  for r in cols['id']:
+    if cols['parentId'].get(r) == tref[0] and cols['colId'].get(r) == col_id:
+      return 'formula' if cols['isFormula'].get(r) else 'data'
+  return 'unknown'
+
+
+def judge_state_diff(ref, obs, full_log, upto):
+  """Compares an observed snapshot with the reference snapshot it must equal (undo/redo/reopen...).
+  Returns (failure or None, labels). failure = (signature_suffix, detail). Differences that are not
+  charged: error-kind differences involving CircularRefError; formula cells whose *reference* value was
+  itself stale w.r.t. a fresh recalculation (charged to C05 instead). `full_log[:upto]` must rebuild the
+  reference state."""
+  labels = []
+  structural, cells = eqv.cells_diff(ref, obs)
+  if not structural and not cells:
+    return None, labels
+  if only_summary_renumbering(ref, obs):
+    return ('summary-rows-renumbered', structural[:3]), labels
+  if structural:
+    e = structural[0]
+    what = e[1] if e[1] in ('row ids',) or e[1].startswith('table only') else 'column-set'
+    tcat = e[0] if e[0].startswith('_grist_') else ('summarytable' if e[0] in (summary_tables_of(ref) | summary_tables_of(obs)) else 'usertable')
+    return ('structure:%s:%s' % (tcat, what.replace(' ', '-')), structural[:4]), labels
+  real = [x for x in cells if not is_cycle_error_pair(x[3], x[4])]
+  if len(real) < len(cells):
+    labels.append('cycle-error-kind-differs(not judged)')
+  if not real:
+    return None, labels
+  if any(col_kind(ref, x[0], x[1]) == 'formula' for x in real):
+    try:
+      stale, _ = stale_cells_of(full_log, upto)
+    except Exception:
+      stale = set()
+    kept = [x for x in real if (x[0], x[1], x[2]) not in stale]
+    if len(kept) < len(real):
+      labels.append('reference-state-was-stale(charged to C05)')
+    real = kept
+  if not real:
+    return None, labels
+  t, c, r, va, vb = real[0]
+  tcat = t if t.startswith('_grist_') else 'usertable'
+  kind = col_kind(ref, t, c)
+  if all(is_keyerror(x[3]) != is_keyerror(x[4]) and col_kind(ref, x[0], x[1]) == 'formula' for x in real):
+    # one side is a lookup KeyError ("table has no column"), the other a value: see known finding
+    return ('cells:lookup-KeyError-stale', [list(x) for x in real[:6]]), labels
+  loc = '%s.%s' % (tcat, c if kind == 'meta' else kind)
+  return ('cells:' + loc, [list(x) for x in real[:6]]), labels
